@@ -653,11 +653,12 @@ theorem lit_parse (T : Table) (hw : wfTable2 T = true) (hdf : fieldDefaultsOk T)
     (dv : DValue) (rty : RTy) (hd : Bool) (hlit : litOk T defs rty.gql hd dv = true)
     (x : GValue) (hx : resolve defs raw dv = some x) :
     ∃ y, subst vars dv = some y ∧
-      parseD Defects.none T rty x = (coerce T false rty.gql y).map (view T rty) ∧
+      parseK Defects.none T rty x = (coerce T false rty.gql y).map (view T rty) ∧
       (coerce T true rty.gql x).isSome = (coerce T false rty.gql y).isSome := by
   obtain ⟨y, hy, hs, hsh⟩ := (lit_sim T hw hdc defs raw vars C dv rty hd hlit).2 x hx
   refine ⟨y, hy, ?_, ?_⟩
   · have := parse_value T (fieldDefault Defects.none T) (wfTable2_wf hw) hdf x rty hsh
+    rw [parseK_of_shapeOk _ _ _ _ hsh]
     simp only [parseD, this]
     exact hs.1
   · have := congrArg Option.isSome hs.1
